@@ -368,8 +368,13 @@ def jobs(tier):
                 d = 4 if tier == "quick" else 5      # 3+ rows under a skyline: smaller bins (nonlinear, measured 58 s at 4)
                 if n > 3 or (tier == "quick" and "Lowest" in name):
                     continue                          # lowest skyline with 3 rows: 400 s, thorough only
+            if "Small" in name and tier == "thorough" and n >= 3:
+                d = 5 if n == 3 else 3               # area objectives: dims 8 (3 rows) / 6 and 4 (some 3-4 row cases) ended in solver timeouts when measured
             for reps in ([[1] * n] if tier == "quick" else [r for r in P.compositions(n) if r == sorted(r, reverse=True)]):
-                js.append(Job(f"{name}/reps{'-'.join(map(str, reps))}/d{d}", job_objective, dict(name=name, reps=reps, dmax=d,
+                dd = d
+                if "Skyline" in name and tier == "thorough" and reps == [1, 1, 1]:
+                    dd = 4                           # three distinct item types under a skyline: dims 5 timed out (measured), 4 decides
+                js.append(Job(f"{name}/reps{'-'.join(map(str, reps))}/d{dd}", job_objective, dict(name=name, reps=reps, dmax=dd,
                                                                                              timeout_s=900 if tier == "quick" else 3000),
                               "objective_" + name, 1000 if tier == "quick" else 3300, weight=n))
     return js
@@ -378,7 +383,8 @@ def jobs(tier):
 def meta(tier):
     return dict(
         bounds=dict(rows="<= 3 rows (thorough 4; skyline objectives 3)", packings="every feasible packing (declarative oracle): unsorted rows, any bin numbering 1..k",
-                    sizes="counting objectives: sizes up to 10^12; area objectives: bin dims <= 6 (thorough 8); skyline objectives with 3 rows: dims <= 4 (thorough 5) (nonlinear, bit-vector back-end)",
+                    sizes="counting objectives: sizes up to 10^12; area objectives: bin dims <= 6 (thorough: 8 up to 2 rows, 5 with 3 rows, 3 with 4 rows - larger combinations ended in solver timeouts when measured); "
+                          "skyline objectives with 3 rows: dims <= 4 (thorough 5 for repeated item types, 4 for three distinct types) (nonlinear, bit-vector back-end)",
                     lower_bound_bins="symbolic with 1 <= lb <= k (what C03 establishes)",
                     bounds_formulas="lower_bound()/upper_bound() of all seven objectives equal their documented closed forms for every instance with <= 3 item types (thorough 4), sizes to 10^12; "
                                     "values read from the instance matrix in this plain-Python code are numpy scalars of the instance dtype (arithmetic on two of them must fit it)"),
